@@ -114,6 +114,38 @@ def direct_laws(op, rng, n_sets):
             if out.shape != ref.shape or not np.allclose(out / s_, ref, rtol=0, atol=1e-9 * np.abs(ref).max()) or abs(p_out - s_ ** 2 * p_in) > 1e-8 * s_ ** 2 * p_in:
                 bad.append(("%s:not-homogeneous:amplitude-scale" % name, dict(scale=s_, err=float(np.abs(out / s_ - ref).max() / np.abs(ref).max()) if out.shape == ref.shape else None)))
                 return bad, done
+    # the caller's field is the caller's: unchanged by a propagation, and propagating it twice gives the same field
+    N, d1, lam, z = 8, 0.01, 1e-6, 500.0
+    for dt in (np.complex128, np.complex64, np.float64):
+        U0 = (rng.standard_normal((N, N)) + (1j * rng.standard_normal((N, N)) if np.dtype(dt).kind == "c" else 0)).astype(dt)
+        for name, f in (("angularSpectrum", lambda W: op.angularSpectrum(W, lam, d1, 1.5 * d1, z)), ("twoStepFresnel", lambda W: op.twoStepFresnel(W, lam, d1, 1.5 * d1, z)),
+                        ("oneStepFresnel", lambda W: op.oneStepFresnel(W, lam, d1, z)), ("lensAgainst", lambda W: op.lensAgainst(W, lam, d1, z))):
+            W = U0.copy()
+            o1 = np.array(f(W), copy=True)
+            o2 = np.asarray(f(W))
+            done += 1
+            if not np.array_equal(W, U0) or not np.array_equal(o1, o2):
+                bad.append(("%s:input-field-modified" % name, dict(dtype=np.dtype(dt).name, input_changed=bool(not np.array_equal(W, U0)))))
+                return bad, done
+    # a grid size this process has not used yet, single precision FIRST, then double precision: the double-precision laws still hold to
+    # double precision (no work array whose precision was fixed by an earlier caller)
+    for N in (14, 22):
+        Us = (rng.standard_normal((N, N)) + 1j * rng.standard_normal((N, N)))
+        calls = [("lensAgainst", lambda W: op.lensAgainst(W, lam, d1, z), abs(lam * z / (N * d1))), ("angularSpectrum", lambda W: op.angularSpectrum(W, lam, d1, 1.5 * d1, z), 1.5 * d1),
+                 ("twoStepFresnel", lambda W: op.twoStepFresnel(W, lam, d1, 1.5 * d1, z), 1.5 * d1), ("oneStepFresnel", lambda W: op.oneStepFresnel(W, lam, d1, z), abs(lam * z / (N * d1)))]
+        for name, f, dout in calls:
+            f(Us.astype(np.complex64))
+            f(Us.real.astype(np.float32))
+        p_in = (np.abs(Us) ** 2).sum() * d1 ** 2
+        for name, f, dout in calls:
+            out = np.asarray(f(Us.copy()))
+            done += 1
+            p_out = (np.abs(out) ** 2).sum() * dout ** 2
+            lin = np.asarray(f((2 - 1j) * Us))
+            if abs(p_out - p_in) > 1e-11 * p_in or not np.allclose(lin, (2 - 1j) * out, rtol=0, atol=1e-12 * np.abs(out).max()):
+                bad.append(("%s:precision-depends-on-an-earlier-call" % name, dict(N=N, power_error=float(abs(p_out / p_in - 1)),
+                                                                                  linearity_error=float(np.abs(lin - (2 - 1j) * out).max() / np.abs(out).max()))))
+                return bad, done
     # the dark field: P(0) = 0 exactly (linearity at the zero vector), also as U - U and 0 * U
     N, d1, lam, z = 8, 0.01, 1e-6, 500.0
     U = rng.standard_normal((N, N)) + 1j * rng.standard_normal((N, N))
